@@ -5,13 +5,17 @@ package main
 // record menu through.
 
 import (
+	"errors"
 	"fmt"
+	"net"
 	"os"
 	"path/filepath"
 	"regexp"
 	"runtime/debug"
+	"strconv"
 	"strings"
 	"sync"
+	"syscall"
 	"time"
 
 	"github.com/relex/gotils/channels"
@@ -21,8 +25,11 @@ import (
 	"github.com/relex/slog-agent/base/bconfig"
 	"github.com/relex/slog-agent/base/bsupport"
 	"github.com/relex/slog-agent/buffer/hybridbuffer"
+	"github.com/relex/slog-agent/defs"
 	"github.com/relex/slog-agent/input/sysloginput"
 	"github.com/relex/slog-agent/orchestrate/obykeyset"
+	"github.com/relex/slog-agent/output/datadog"
+	"github.com/relex/slog-agent/output/fluentdforward"
 	"github.com/relex/slog-agent/run"
 
 	"slogverif/hutil"
@@ -160,6 +167,23 @@ func hasDuplicate(list []string) bool {
 // at several frames (metric registration happens wherever the first metric with the label set is created) the class
 // is named after the cause.
 func classify(site, detail string, conf run.Config) string {
+	// a record within the input limits that the accepted transformations / rewriters have grown beyond the fixed
+	// serializer buffer (judged by the harness' own measure of the record at the moment it was handed to the serializer)
+	if strings.HasPrefix(site, "fluentdforward.") || strings.HasPrefix(site, "fastmsgpack.") || strings.HasPrefix(site, "rewrite") {
+		if serializing && (strings.Contains(detail, "out of range") || strings.Contains(detail, "slice bounds")) && lastRecordBytes > defs.InputLogMaxRecordBytes {
+			return "serializer-buffer-overflow:record-grown-by-configuration"
+		}
+	}
+	// Prometheus label names are [a-zA-Z_][a-zA-Z0-9_]* (Prometheus data model); the agent derives them from field names
+	if strings.Contains(detail, "is not a valid label name") || strings.Contains(detail, "invalid label name") {
+		switch {
+		case hasNonLabelName(conf.MetricKeys):
+			return "invalid-metric-label-name:metricKeys"
+		case conf.Orchestration.Value != nil && hasNonLabelName(orchestrationKeys(conf)):
+			return "invalid-metric-label-name:orchestration.keys"
+		}
+		return "invalid-metric-label-name:other"
+	}
 	if strings.Contains(detail, "duplicate label names") {
 		switch {
 		case hasDuplicate(conf.MetricKeys):
@@ -173,6 +197,17 @@ func classify(site, detail string, conf run.Config) string {
 		return a
 	}
 	return site
+}
+
+var labelNameChars = regexp.MustCompile(`^[a-zA-Z0-9_]+$`)
+
+func hasNonLabelName(list []string) bool {
+	for _, s := range list {
+		if !labelNameChars.MatchString(s) {
+			return true
+		}
+	}
+	return false
 }
 
 func orchestrationKeys(conf run.Config) []string {
@@ -193,8 +228,10 @@ const (
 
 type evalOptions struct {
 	orchestrate bool // also run the real orchestrator + bufferer (background goroutines)
-	listen      bool // also construct and start the real input listener on an ephemeral port
+	listen      bool // also construct and start the real input listener(s) on the configured host, ephemeral port
 	twoTags     bool // build serializers / chunk makers for an empty tag too
+	real        bool // phase C: the orchestrator once more with the REAL forwarders (unreachable upstream), then a restart on what it left on disk
+	bigMenu     bool // the additional limit-size records (escape-heavy, over-limit) in phase A
 }
 
 // maxInstantiableFields: above this the harness does not try to allocate records (16 bytes per field and record)
@@ -217,31 +254,14 @@ func evaluate(text string, nilHolder string, opt evalOptions) (outcome, key, msg
 		return outViolated, "harness:write-config", err.Error()
 	}
 
-	var conf run.Config
-	var schema base.LogSchema
-	var loadErr error
-	site, detail := catch(func() {
-		conf, schema, _, loadErr = run.ParseConfigFile(path)
-	})
-	if site != "" {
-		key = "load-panic:" + site
-		if strings.Contains(detail, "nil pointer dereference") && nilHolder != "" {
-			key += ":nil-" + nilHolder
-		}
-		return outViolated, key, "run.ParseConfigFile did not return, it panicked\n" + detail
-	}
-	if loadErr != nil {
-		return outRejected, "", ""
-	}
-
-	if n := schema.GetMaxFields(); n > maxInstantiableFields {
-		return outViolated, "accepted-unbounded:schema.maxFields", fmt.Sprintf("schema/maxFields=%d was accepted: every log record allocates maxFields string headers (%d bytes per record); "+
-			"the agent cannot hold a single record (out of memory, or 'makeslice: len out of range' in base.newLogRecord)", n, uint64(n)*16)
+	conf, schema, outcome, key, msg := load(path, nilHolder)
+	if outcome != outAccepted {
+		return outcome, key, msg
 	}
 
 	// ---- accepted: phase A, everything that can be built and run on this goroutine
-	site, detail = catch(func() {
-		key, msg = instantiateInline(conf, schema, opt.twoTags)
+	site, detail := catch(func() {
+		key, msg = instantiateInline(conf, schema, opt.twoTags, opt.bigMenu)
 	})
 	if site != "" {
 		return outViolated, "accepted-panic:" + classify(site, detail, conf), "configuration was accepted by run.ParseConfigFile, then instantiation/processing panicked\n" + detail
@@ -256,10 +276,11 @@ func evaluate(text string, nilHolder string, opt evalOptions) (outcome, key, msg
 	// ---- phase B: the real orchestrator with pipelines and bufferers on a scratch root (background goroutines; a
 	// panic there kills the worker process and is attributed to this case by seq as "fatal:...")
 	if opt.orchestrate {
+		root := filepath.Join(dir, fmt.Sprintf("buf%d", caseSerial))
 		site, detail = catch(func() {
-			key, msg = instantiateOrchestrated(conf, schema, filepath.Join(dir, fmt.Sprintf("buf%d", caseSerial)), opt.listen)
+			key, msg = instantiateOrchestrated(conf, schema, root, opt.listen, false)
 		})
-		os.RemoveAll(filepath.Join(dir, fmt.Sprintf("buf%d", caseSerial)))
+		os.RemoveAll(root)
 		if site != "" {
 			return outViolated, "accepted-panic:" + classify(site, detail, conf), "configuration was accepted by run.ParseConfigFile, then starting the orchestrator/pipelines panicked\n" + detail
 		}
@@ -267,7 +288,49 @@ func evaluate(text string, nilHolder string, opt evalOptions) (outcome, key, msg
 			return outViolated, key, msg
 		}
 	}
+	// ---- phase C: the pipelines exactly as the agent assembles them (real forwarders on the pipeline's metric factory,
+	// chunks persisted at shutdown because the upstream is unreachable), then the same configuration started again on
+	// the queue directories left behind (instantiation from a non-virgin disk)
+	if opt.real {
+		root := filepath.Join(dir, fmt.Sprintf("real%d", caseSerial))
+		for round := 0; round < 2 && site == "" && key == ""; round++ {
+			site, detail = catch(func() {
+				key, msg = instantiateOrchestrated(conf, schema, root, false, true)
+			})
+		}
+		os.RemoveAll(root)
+		if site != "" {
+			return outViolated, "accepted-panic:" + classify(site, detail, conf), "configuration was accepted by run.ParseConfigFile, then starting the orchestrator with the real forwarders (or restarting it on the queue directories it left) panicked\n" + detail
+		}
+		if key != "" {
+			return outViolated, key, msg
+		}
+	}
 	return outAccepted, "", ""
+}
+
+// load gives the file to the real loader under the stall guard and judges its answer.
+func load(path string, nilHolder string) (conf run.Config, schema base.LogSchema, outcome, key, msg string) {
+	res, returned, stuckAt, waited := guardedLoad(path)
+	if !returned {
+		return conf, schema, outViolated, "loader-does-not-return:" + stuckAt, fmt.Sprintf("run.ParseConfigFile did not return (waited %s; a load takes a few milliseconds); "+
+			"it was executing %s. A loader that never answers is neither an accepted configuration nor an error value", waited, stuckAt)
+	}
+	if res.site != "" {
+		key = "load-panic:" + res.site
+		if strings.Contains(res.detail, "nil pointer dereference") && nilHolder != "" {
+			key += ":nil-" + nilHolder
+		}
+		return conf, schema, outViolated, key, "run.ParseConfigFile did not return, it panicked\n" + res.detail
+	}
+	if res.err != nil {
+		return conf, schema, outRejected, "", ""
+	}
+	if n := res.schema.GetMaxFields(); n > maxInstantiableFields {
+		return conf, schema, outViolated, "accepted-unbounded:schema.maxFields", fmt.Sprintf("schema/maxFields=%d was accepted: every log record allocates maxFields string headers (%d bytes per record); "+
+			"the agent cannot hold a single record (out of memory, or 'makeslice: len out of range' in base.newLogRecord)", n, uint64(n)*16)
+	}
+	return res.conf, res.schema, outAccepted, "", ""
 }
 
 // parseOnly loads a text once more to obtain the error value for a message.
@@ -320,9 +383,23 @@ func smallMenu() []string {
 	return append(append([]string{}, recordMenu[:2]...), syntheticRecords[:6]...)
 }
 
+// the harness' own measure of the record that is being serialized (used only to name a violation class)
+var (
+	serializing     bool
+	lastRecordBytes int
+)
+
+func fieldBytes(record *base.LogRecord) int {
+	n := 0
+	for _, f := range record.Fields {
+		n += len(f)
+	}
+	return n
+}
+
 // instantiateInline mirrors test/pipeline.go: parser(s) with extractions, transforms, serializers, chunk makers,
 // forwarder objects (constructed, never started), then the record menu.
-func instantiateInline(conf run.Config, schema base.LogSchema, twoTags bool) (key, msg string) {
+func instantiateInline(conf run.Config, schema base.LogSchema, twoTags bool, bigMenu bool) (key, msg string) {
 	mf := promreg.NewMetricFactory("c16a_", nil, nil)
 	nOutputs := len(conf.OutputBuffersPairs)
 	// reference counting exactly as run.Loader / LogProcessingWorker.onInput do it: one reference per output, one
@@ -366,21 +443,27 @@ func instantiateInline(conf run.Config, schema base.LogSchema, twoTags bool) (ke
 			})
 		}
 	}
-	// the forwarder object of every output (what PrepareSequentialPipeline constructs); never started
-	for i, pair := range conf.OutputBuffersPairs {
-		closed := channels.NewSignalAwaitable()
-		args := base.ChunkConsumerArgs{
-			InputChannel:    make(chan base.LogChunk),
-			InputClosed:     closed,
-			OnChunkConsumed: func(base.LogChunk) {},
-			OnChunkLeftover: func(base.LogChunk) {},
-			OnFinished:      func() {},
+	// the forwarder objects of two pipelines, never started: ALL outputs of a pipeline on the pipeline's one metric
+	// creator, told apart by the "output" label only (what a pipeline of the agent does; two outputs that register the
+	// same metric family with different label sets collide there)
+	fmf := promreg.NewMetricFactory("c16f_", nil, nil)
+	for pipeline := 0; pipeline < 2; pipeline++ {
+		pmc := fmf.AddOrGetPrefix("process_", []string{"orchestrator", "pipeline"}, []string{"inline", strconv.Itoa(pipeline)})
+		for _, pair := range conf.OutputBuffersPairs {
+			closed := channels.NewSignalAwaitable()
+			args := base.ChunkConsumerArgs{
+				InputChannel:    make(chan base.LogChunk),
+				InputClosed:     closed,
+				OnChunkConsumed: func(base.LogChunk) {},
+				OnChunkLeftover: func(base.LogChunk) {},
+				OnFinished:      func() {},
+			}
+			fw := pair.OutputConfig.Value.NewForwarder(logger.Root(), args, pmc.AddOrGetPrefix("output_", []string{"output"}, []string{pair.Name}))
+			if fw == nil {
+				return "accepted-error:output.NewForwarder", "NewForwarder returned nil"
+			}
+			closed.Signal()
 		}
-		fw := pair.OutputConfig.Value.NewForwarder(logger.Root(), args, mf.AddOrGetPrefix(fmt.Sprintf("output%d_", i), nil, nil))
-		if fw == nil {
-			return "accepted-error:output.NewForwarder", "NewForwarder returned nil"
-		}
-		closed.Signal()
 	}
 
 	process := func(record *base.LogRecord) {
@@ -393,7 +476,9 @@ func instantiateInline(conf run.Config, schema base.LogSchema, twoTags bool) (ke
 		icounter.CountRecordPass(record)
 		for i := len(outputs) - 1; i >= 0; i-- { // the outputs of the first tag last: they release the record
 			out := outputs[i]
+			lastRecordBytes, serializing = fieldBytes(record), true
 			stream := out.serializer.SerializeRecord(record)
+			serializing = false
 			if i < nOutputs {
 				allocator.Release(record)
 			}
@@ -407,6 +492,8 @@ func instantiateInline(conf run.Config, schema base.LogSchema, twoTags bool) (ke
 		menu := recordMenu
 		if round > 0 {
 			menu = smallMenu()
+		} else if bigMenu {
+			menu = append(append([]string{}, recordMenu...), bigRecords[1:]...)
 		}
 		for _, p := range parsers {
 			for _, line := range menu {
@@ -444,20 +531,55 @@ func (discard) Write(p []byte) (int, error) { return len(p), nil }
 
 var unsafePath = regexp.MustCompile(`[^A-Za-z0-9_./-]`)
 
-// instantiateOrchestrated starts the configured orchestrator the way run.Loader does, with a consumer override that
-// acknowledges every chunk (no network), buffer roots moved below a scratch directory, feeds the record menu through a
-// sink and shuts everything down.
-func instantiateOrchestrated(conf run.Config, schema base.LogSchema, root string, listen bool) (key, msg string) {
+// unreachable: a loopback port nothing listens on (tcpmux, privileged): connections are refused at once
+const (
+	unreachableFluentd = "127.0.0.1:1"
+	unreachableDatadog = "http://127.0.0.1:1/api/v2/logs"
+)
+
+// relocate moves the buffer roots below root and (real forwarders) points every upstream at the unreachable port:
+// file-system layout and network reachability are not properties of the file. The returned function restores the values.
+func relocate(conf run.Config, root string, upstreams bool) (restore func()) {
+	var undo []func()
 	for _, pair := range conf.OutputBuffersPairs {
 		if hb, ok := pair.BufferConfig.Value.(*hybridbuffer.Config); ok {
+			orig := hb.RootPath
 			sub := unsafePath.ReplaceAllString(hb.RootPath, "_")
 			sub = strings.ReplaceAll(sub, "..", "__")
 			if len(sub) > 100 {
 				sub = sub[:100]
 			}
 			hb.RootPath = filepath.Join(root, sub)
+			undo = append(undo, func() { hb.RootPath = orig })
+		}
+		if !upstreams {
+			continue
+		}
+		switch oc := pair.OutputConfig.Value.(type) {
+		case *fluentdforward.Config:
+			orig := oc.Upstream.Address
+			oc.Upstream.Address = unreachableFluentd
+			undo = append(undo, func() { oc.Upstream.Address = orig })
+		case *datadog.Config:
+			orig := oc.Upstream.Address
+			oc.Upstream.Address = unreachableDatadog
+			undo = append(undo, func() { oc.Upstream.Address = orig })
 		}
 	}
+	return func() {
+		for _, f := range undo {
+			f()
+		}
+	}
+}
+
+// instantiateOrchestrated starts the configured orchestrator the way run.Loader does, buffer roots moved below a scratch
+// directory, feeds the record menu through a sink and shuts everything down.
+// real=false: a consumer override acknowledges every chunk (no network), everything is sent at the end.
+// real=true: no override - obase.PrepareSequentialPipeline constructs and starts the configured forwarders on the
+// pipeline's metric creator; the upstream is unreachable, so the chunks are persisted at shutdown and stay in root.
+func instantiateOrchestrated(conf run.Config, schema base.LogSchema, root string, listen bool, real bool) (key, msg string) {
+	defer relocate(conf, root, real)()
 	t0 := time.Now()
 	trace := func(what string) {
 		if os.Getenv("C16_TRACE") != "" {
@@ -473,6 +595,9 @@ func instantiateOrchestrated(conf run.Config, schema base.LogSchema, root string
 		OutputBufferPairs:   conf.OutputBuffersPairs,
 		NewConsumerOverride: newNopConsumer,
 		SendAllAtEnd:        true,
+	}
+	if real {
+		args.NewConsumerOverride, args.SendAllAtEnd = nil, false
 	}
 	mf := promreg.NewMetricFactory("c16b_", nil, nil)
 	orch := conf.Orchestration.Value.StartOrchestrator(logger.Root(), args, mf)
@@ -499,28 +624,106 @@ func instantiateOrchestrated(conf run.Config, schema base.LogSchema, root string
 	trace("fed")
 
 	if listen {
-		stop := channels.NewSignalAwaitable()
-		var stopped []channels.Awaitable
-		imf := promreg.NewMetricFactory("c16i_", nil, nil)
-		for i, in := range conf.Inputs {
-			if sc, ok := in.Value.(*sysloginput.Config); ok {
-				sc.Address = "127.0.0.1:0" // whether a port can be bound is not a property of the file
-			}
-			input, err := in.Value.NewInput(logger.Root(), allocator, schema, orch, imf, stop)
-			if err != nil {
-				key, msg = "accepted-error:input.NewInput", fmt.Sprintf("accepted configuration, but inputs[%d].NewInput failed: %v", i, err)
-				break
-			}
-			input.Start()
-			stopped = append(stopped, input.Stopped())
-		}
-		stop.Signal()
-		if !channels.AllAwaitables(stopped...).Wait(20 * time.Second) {
-			key, msg = "accepted-error:input-stop-timeout", "inputs did not stop"
-		}
+		key, msg = launchInputs(conf, schema, allocator, orch)
 	}
 	trace("inputs stopped")
 	orch.Shutdown()
 	trace("shutdown")
 	return key, msg
+}
+
+// launchInputs constructs and starts every configured input the way run.Loader.LaunchInputs does (which ends the process
+// on the first error). The configured HOST is kept. Whether a particular port is free is not a property of the file,
+// so a well-formed port number is replaced by 0 (assigned by the OS) - but an input whose configured address equals
+// that of an earlier input is given the very port the earlier one was assigned: two inputs on one address can never
+// both be constructed. Anything else (no port, port out of range, junk) reaches net.Listen unchanged.
+func launchInputs(conf run.Config, schema base.LogSchema, allocator *base.LogAllocator, orch base.Orchestrator) (key, msg string) {
+	stop := channels.NewSignalAwaitable()
+	var stopped []channels.Awaitable
+	imf := promreg.NewMetricFactory("c16i_", nil, nil)
+	bound := map[string]string{} // configured address -> address bound for it
+	for i, in := range conf.Inputs {
+		sc, isSyslog := in.Value.(*sysloginput.Config)
+		orig, duplicate := "", false
+		if isSyslog {
+			orig = sc.Address
+			sc.Address, duplicate = listenAddress(orig, bound)
+		}
+		input, err := in.Value.NewInput(logger.Root(), allocator, schema, orch, imf, stop)
+		if isSyslog {
+			sc.Address = orig
+		}
+		if err != nil {
+			if k := classifyListenError(orig, duplicate, err); k != "" {
+				key, msg = k, fmt.Sprintf("accepted configuration, but inputs[%d] (address %q) cannot be constructed: %v; run.Loader.LaunchInputs ends the process with a fatal log line at this point, "+
+					"after the orchestrator has been started", i, orig, err)
+				break
+			}
+			continue // the environment (name resolution, address family), not the file
+		}
+		if isSyslog {
+			if _, ok := bound[orig]; !ok {
+				if host, _, herr := net.SplitHostPort(orig); herr == nil {
+					if _, port, perr := net.SplitHostPort(input.Address()); perr == nil {
+						bound[orig] = net.JoinHostPort(host, port)
+					}
+				}
+			}
+		}
+		input.Start()
+		stopped = append(stopped, input.Stopped())
+	}
+	stop.Signal()
+	if !channels.AllAwaitables(stopped...).Wait(20 * time.Second) {
+		key, msg = "accepted-error:input-stop-timeout", "inputs did not stop"
+	}
+	return key, msg
+}
+
+func numericPort(port string) (int, bool) {
+	if port == "" {
+		return 0, true
+	}
+	n, err := strconv.Atoi(port)
+	if err != nil || (port[0] < '0' || port[0] > '9') && port[0] != '-' {
+		return 0, false
+	}
+	return n, true
+}
+
+func listenAddress(orig string, bound map[string]string) (use string, duplicate bool) {
+	host, port, err := net.SplitHostPort(orig)
+	if err != nil {
+		return orig, false
+	}
+	n, numeric := numericPort(port)
+	if !numeric || n < 0 || n > 65535 {
+		return orig, false
+	}
+	if n == 0 {
+		return orig, false // every such input gets its own port
+	}
+	if b, ok := bound[orig]; ok {
+		return b, true
+	}
+	return net.JoinHostPort(host, "0"), false
+}
+
+// classifyListenError names the class of an input that cannot be constructed; "" = caused by the environment.
+func classifyListenError(orig string, duplicate bool, err error) string {
+	var dnsErr *net.DNSError
+	if errors.As(err, &dnsErr) || errors.Is(err, syscall.EADDRNOTAVAIL) || errors.Is(err, syscall.EAFNOSUPPORT) {
+		return ""
+	}
+	if duplicate && errors.Is(err, syscall.EADDRINUSE) {
+		return "accepted-unusable:inputs.same-address"
+	}
+	_, port, serr := net.SplitHostPort(orig)
+	if serr != nil {
+		return "accepted-unusable:input.address-format"
+	}
+	if n, numeric := numericPort(port); numeric && (n < 0 || n > 65535) {
+		return "accepted-unusable:input.address-port-range"
+	}
+	return "accepted-unusable:input.address"
 }
